@@ -25,10 +25,10 @@ func (am AppModule) AutoCLIOptions() *autocliv1.ModuleOptions {
 				},
 				{
 					RpcMethod:      "GetAllowedBidder",
-					Use:            "get-allowed-bidder [id]",
+					Use:            "get-allowed-bidder [auction-id] [bidder]",
 					Short:          "Gets a AllowedBidder",
 					Alias:          []string{"show-allowed-bidder"},
-					PositionalArgs: []*autocliv1.PositionalArgDescriptor{{ProtoField: "auctionId"}},
+					PositionalArgs: []*autocliv1.PositionalArgDescriptor{{ProtoField: "auction_id"}, {ProtoField: "bidder"}},
 				},
 				{
 					RpcMethod: "ListVestingQueue",
@@ -42,10 +42,10 @@ func (am AppModule) AutoCLIOptions() *autocliv1.ModuleOptions {
 				},
 				{
 					RpcMethod:      "GetBid",
-					Use:            "get-bid [id]",
+					Use:            "get-bid [auction-id] [bid-id]",
 					Short:          "Gets a Bid by id",
 					Alias:          []string{"show-bid"},
-					PositionalArgs: []*autocliv1.PositionalArgDescriptor{{ProtoField: "id"}},
+					PositionalArgs: []*autocliv1.PositionalArgDescriptor{{ProtoField: "auction_id"}, {ProtoField: "bid_id"}},
 				},
 				{
 					RpcMethod: "ListAuction",
@@ -54,10 +54,10 @@ func (am AppModule) AutoCLIOptions() *autocliv1.ModuleOptions {
 				},
 				{
 					RpcMethod:      "GetAuction",
-					Use:            "get-auction [id]",
+					Use:            "get-auction [auction-id]",
 					Short:          "Gets a auction by id",
 					Alias:          []string{"show-auction"},
-					PositionalArgs: []*autocliv1.PositionalArgDescriptor{{ProtoField: "id"}},
+					PositionalArgs: []*autocliv1.PositionalArgDescriptor{{ProtoField: "auction_id"}},
 				},
 				// this line is used by ignite scaffolding # autocli/query
 			},
@@ -74,31 +74,31 @@ func (am AppModule) AutoCLIOptions() *autocliv1.ModuleOptions {
 					RpcMethod:      "CreateFixedPriceAuction",
 					Use:            "create-fixed-price-auction [start-price] [selling-coin] [paying-coin-denom] [vesting-schedules] [start-time] [end-time]",
 					Short:          "Send a CreateFixedPriceAuction tx",
-					PositionalArgs: []*autocliv1.PositionalArgDescriptor{{ProtoField: "startPrice"}, {ProtoField: "sellingCoin"}, {ProtoField: "payingCoinDenom"}, {ProtoField: "vestingSchedules"}, {ProtoField: "startTime"}, {ProtoField: "endTime"}},
+					PositionalArgs: []*autocliv1.PositionalArgDescriptor{{ProtoField: "start_price"}, {ProtoField: "selling_coin"}, {ProtoField: "paying_coin_denom"}, {ProtoField: "vesting_schedules"}, {ProtoField: "start_time"}, {ProtoField: "end_time"}},
 				},
 				{
 					RpcMethod:      "CreateBatchAuction",
 					Use:            "create-batch-auction [start-price] [min-bid-price] [selling-coin] [paying-coin-denom] [vesting-schedules] [max-extended-round] [extended-round-rate] [start-time] [end-time]",
 					Short:          "Send a CreateBatchAuction tx",
-					PositionalArgs: []*autocliv1.PositionalArgDescriptor{{ProtoField: "startPrice"}, {ProtoField: "minBidPrice"}, {ProtoField: "sellingCoin"}, {ProtoField: "payingCoinDenom"}, {ProtoField: "vestingSchedules"}, {ProtoField: "maxExtendedRound"}, {ProtoField: "extendedRoundRate"}, {ProtoField: "startTime"}, {ProtoField: "endTime"}},
+					PositionalArgs: []*autocliv1.PositionalArgDescriptor{{ProtoField: "start_price"}, {ProtoField: "min_bid_price"}, {ProtoField: "selling_coin"}, {ProtoField: "paying_coin_denom"}, {ProtoField: "vesting_schedules"}, {ProtoField: "max_extended_round"}, {ProtoField: "extended_round_rate"}, {ProtoField: "start_time"}, {ProtoField: "end_time"}},
 				},
 				{
 					RpcMethod:      "CancelAuction",
 					Use:            "cancel-auction [auction-id]",
 					Short:          "Send a CancelAuction tx",
-					PositionalArgs: []*autocliv1.PositionalArgDescriptor{{ProtoField: "auctionId"}},
+					PositionalArgs: []*autocliv1.PositionalArgDescriptor{{ProtoField: "auction_id"}},
 				},
 				{
 					RpcMethod:      "PlaceBid",
 					Use:            "place-bid [auction-id] [bid-type] [price] [coin]",
 					Short:          "Send a PlaceBid tx",
-					PositionalArgs: []*autocliv1.PositionalArgDescriptor{{ProtoField: "auctionId"}, {ProtoField: "bidType"}, {ProtoField: "price"}, {ProtoField: "coin"}},
+					PositionalArgs: []*autocliv1.PositionalArgDescriptor{{ProtoField: "auction_id"}, {ProtoField: "bid_type"}, {ProtoField: "price"}, {ProtoField: "coin"}},
 				},
 				{
 					RpcMethod:      "ModifyBid",
 					Use:            "modify-bid [auction-id] [bid-id] [price] [coin]",
 					Short:          "Send a ModifyBid tx",
-					PositionalArgs: []*autocliv1.PositionalArgDescriptor{{ProtoField: "auctionId"}, {ProtoField: "bidId"}, {ProtoField: "price"}, {ProtoField: "coin"}},
+					PositionalArgs: []*autocliv1.PositionalArgDescriptor{{ProtoField: "auction_id"}, {ProtoField: "bid_id"}, {ProtoField: "price"}, {ProtoField: "coin"}},
 				},
 				// this line is used by ignite scaffolding # autocli/tx
 			},
@@ -109,7 +109,7 @@ func (am AppModule) AutoCLIOptions() *autocliv1.ModuleOptions {
 			RpcMethod:      "AddAllowedBidder",
 			Use:            "add-allowed-bidder [auction-id] [allowed-bidder]",
 			Short:          "Send a AddAllowedBidder tx",
-			PositionalArgs: []*autocliv1.PositionalArgDescriptor{{ProtoField: "auctionId"}, {ProtoField: "allowedBidder"}},
+			PositionalArgs: []*autocliv1.PositionalArgDescriptor{{ProtoField: "auction_id"}, {ProtoField: "allowed_bidder"}},
 		})
 	}
 
